@@ -111,6 +111,45 @@ func largeCollections(res *lp.Result, prop string) {
 			}
 		}
 	}
+	// element lengths at and around the boundaries of the length fields: a v2 collection element is a [short bytes] (unsigned 16
+	// bits: 32767, 32768 … 65535 are all legal), a v3+ element a [bytes] (signed 32 bits); list elements, map keys and map values
+	{
+		lb, _ := datacodec.NewList(datatype.NewList(datatype.Blob))
+		mv, _ := datacodec.NewMap(datatype.NewMap(datatype.Int, datatype.Varchar))
+		mk, _ := datacodec.NewMap(datatype.NewMap(datatype.Blob, datatype.Int))
+		_ = mk
+		for _, ver := range []primitive.ProtocolVersion{primitive.ProtocolVersion2, primitive.ProtocolVersion4} {
+			for _, n := range []int{127, 128, 255, 256, 32767, 32768, 40000, 65534, 65535} {
+				el := make([]byte, n)
+				for i := range el {
+					el[i] = byte('a' + i%26)
+				}
+				for _, c := range []struct {
+					name  string
+					codec datacodec.Codec
+					value interface{}
+				}{
+					{"list<blob>", lb, [][]byte{{1}, el, {2}}},
+					{"map<int,varchar>", mv, map[int32]string{7: string(el)}},
+				} {
+					id := fmt.Sprintf("%s %s with one element of %d bytes, version %v", prop, c.name, n, ver)
+					res.Case(id, true)
+					res.Count("element-length-boundaries")
+					enc, err := c.codec.Encode(c.value, ver)
+					if err != nil {
+						res.Add(lp.Finding{Kind: "violation", What: "valid value refused by the encoder: " + c.name + " with an element at a length boundary", Input: id, Impl: firstWords(err.Error())})
+						continue
+					}
+					dest := reflect.New(reflect.TypeOf(c.value))
+					if _, err := c.codec.Decode(enc, dest.Interface(), ver); err != nil {
+						res.Add(lp.Finding{Kind: "violation", What: "value does not round-trip: " + c.name + " with an element at a length boundary", Input: id, Impl: firstWords(err.Error())})
+					} else if !reflect.DeepEqual(dest.Elem().Interface(), c.value) {
+						res.Add(lp.Finding{Kind: "violation", What: "value does not round-trip: " + c.name + " with an element at a length boundary (different value)", Input: id})
+					}
+				}
+			}
+		}
+	}
 	// one element longer than 1 MiB (contents of that size are read piecewise): list<blob>, tuple<int,blob>, a UDT field
 	listBlob, _ := datacodec.NewList(datatype.NewList(datatype.Blob))
 	tupleIB, _ := datacodec.NewTuple(datatype.NewTuple(datatype.Int, datatype.Blob))
@@ -228,6 +267,8 @@ func usedDestinationsAndExtremes(res *lp.Result, prop string) {
 	listBytes := cat(be32(3), i32(7), null, i32(9))
 	setBytes := cat(be32(3), str("a"), null, str("c"))
 	tupBytes := cat(i32(7), null, i32(9))
+	mapSI, _ := datacodec.NewMap(datatype.NewMap(datatype.Varchar, datatype.Int))
+	mapBytes := cat(be32(3), str("a"), i32(7), str("b"), null, str("c"), i32(9))
 	type tc struct {
 		name  string
 		codec datacodec.Codec
@@ -283,6 +324,20 @@ func usedDestinationsAndExtremes(res *lp.Result, prop string) {
 		{"tuple (7,NULL,9) into a [3]interface{} holding (1,y,3)", tup, tupBytes, &[3]interface{}{int32(1), "y", int32(3)}, "[7 nil 9 ]"},
 		{"udt <7,NULL,9> into a struct holding <1,y,3>", udtC, tupBytes, &S{p32(1), &y, p32(3)}, "{7 nil 9 }"},
 		{"udt <7,NULL,9> into a map[string]interface{} holding <1,y,3>", udtC, tupBytes, &map[string]interface{}{"a": int32(1), "b": "y", "c": int32(3)}, "[a:7 b:nil c:9]"},
+		// a map with a NULL value into every kind of destination the map codec takes: a map with pointer values, a map with plain
+		// values, a struct whose fields are named after the keys
+		{"map<varchar,int> {a:7,b:NULL,c:9} into a map[string]*int32 holding {a:1}", mapSI, mapBytes, &map[string]*int32{"a": p32(1)}, "[a:7 b:nil c:9]"},
+		{"map<varchar,int> {a:7,b:NULL,c:9} into a map[string]int32 holding {a:1}", mapSI, mapBytes, &map[string]int32{"a": 1}, "[a:7 b:0 c:9]"},
+		{"map<varchar,int> {a:7,b:NULL,c:9} into a struct holding <1,2,3> (pointer fields)", mapSI, mapBytes, &struct {
+			A *int32 `cassandra:"a"`
+			B *int32 `cassandra:"b"`
+			C *int32 `cassandra:"c"`
+		}{p32(1), p32(2), p32(3)}, "{7 nil 9 }"},
+		{"map<varchar,int> {a:7,b:NULL,c:9} into a struct holding <1,2,3> (plain fields)", mapSI, mapBytes, &struct {
+			A int32 `cassandra:"a"`
+			B int32 `cassandra:"b"`
+			C int32 `cassandra:"c"`
+		}{1, 2, 3}, "{7 0 9 }"},
 	}
 	for _, c := range cases {
 		for _, ver := range []primitive.ProtocolVersion{primitive.ProtocolVersion3, primitive.ProtocolVersion5} {
